@@ -162,6 +162,19 @@ func runC10(c *runCtx) error {
 			c10Case(e, fmt.Sprintf("cosine_distance(%s, %s)", l, l2), "fn=cosine_distance")
 		}
 	}
+	// distance functions on coordinates whose squares do not fit 53 bits and on coordinates that
+	// are not dyadic: the documented formula computes differences first
+	for _, pr := range [][2]string{
+		{"float_list(100000001, 7)", "float_list(100000000, 7)"}, {"int_list(100000001, 7)", "int_list(100000000, 7)"},
+		{"list(100000001, 7)", "list(100000000, 2)"}, {"float_list(94906267, 1)", "float_list(94906266, 1)"},
+		{"float_list(300000003, 400000004)", "float_list(300000000, 400000000)"}, {"list(0.1, 0.2)", "list(0.3, 0.7)"},
+		{"float_list(1000000.1, 2)", "float_list(1000000.2, 2)"}, {"split('100000001,7', ',')", "int_list(100000000, 7)"},
+		{"int_list(9007199254740992, 1)", "int_list(9007199254740991, 1)"},
+	} {
+		c10Case(e, fmt.Sprintf("l2_distance(%s, %s)", pr[0], pr[1]), "fn=l2_distance")
+		c10Case(e, fmt.Sprintf("l2_distance(%s, %s)", pr[1], pr[0]), "fn=l2_distance")
+		c10Case(e, fmt.Sprintf("cosine_distance(%s, %s)", pr[0], pr[1]), "fn=cosine_distance")
+	}
 	for _, a := range ints[:5] {
 		for _, b := range append(ints[:4], flts[:2]...) {
 			c10Case(e, fmt.Sprintf("list(%s, %s)", a, b), "list-ctor")
